@@ -73,6 +73,9 @@ def configs(tier):
             out.append({"N": 2, "opts": {"adaptive": False, "n_steps": n}, "sampler": "emcee_smc"})
             out.append({"N": 4, "opts": {"adaptive": False, "n_steps": n, "n_final_samples": 6}, "sampler": "smc"})
             out.append({"N": 4, "opts": {"adaptive": False, "n_steps": n, "min_step": 0.3}, "sampler": "smc"})
+    # a step cap combined with a fixed schedule
+    for n, cap in ((6, 3), (3, 6), (10, 4), (4, 1)):
+        out.append({"N": 4, "opts": {"adaptive": False, "n_steps": n, "max_n_steps": cap}, "sampler": "smc"})
     # non-initial state: the same sampler object already completed another run
     for prior in ({"adaptive": False, "n_steps": 2}, {"adaptive": True, "max_n_steps": 2, "target_efficiency": (0.3, 0.8)}):
         for sampler in ("smc", "emcee_smc"):
